@@ -98,6 +98,15 @@ Definition init (d : string) : event := EvInit (pth d).
 Definition edge (d i r : string) : event := EvEdge (pth d) (pth i) (pth r).
 Definition main (d : string) : event := EvMain (pth d).
 
+(** Packages of several source files. The loaders (Imports/Load.v: y_load / g_load, and the theorems
+    C16_load_*, C16_once, C16_no_cycle about them) work on the package graph: a directory holding
+    several files is the package whose import list is the concatenation, in directory order, of the
+    import lists of its files that are not skipped (_test.go, build constraints); which file
+    declares an import is not an observable of the models. The harness lays programs out as
+    directories of 1-3 files plus skipped files and writes them with [mkpkgf]; an implementation
+    whose answer depends on the file an import is declared in differs from Y (MY). *)
+Definition mkpkgf (d : string) (files : list (list string)) : pkg := mkpkg d (concat files).
+
 (** (id, inside the side conditions according to the generator? ([None]: a constructed case whose
     label is not cross-checked), file mode?, context, entry import path, implementation outcome,
     reference outcome) *)
